@@ -457,7 +457,13 @@ func runFaults(t *testing.T, run *vt.Run, c vt.CaseID, fc faultCase) {
 		}
 		other, _ := lcsim.New(st, lcsim.Cfg{ID: "other-2", Kind: "full", NumTokens: 4, Heartbeat: 5 * time.Second, Zone: "z1", Seed: 9}, 1)
 		_ = other.Start()
-		v, err := lcsim.New(st, cfg, 1)
+		cfg1 := cfg
+		if fc.Restarted && fc.WipeAt%(2*time.Second) == time.Second {
+			// the previous life ran with fewer tokens (configuration raised in between): the restarted incarnation
+			// tops the list found in the ring up, and must remember the full list
+			cfg1.NumTokens = 2
+		}
+		v, err := lcsim.New(st, cfg1, 1)
 		if err != nil {
 			run.Inconclusive(err.Error())
 			return
@@ -786,7 +792,7 @@ func TestC09(t *testing.T) {
 				}
 			}
 		}
-		for _, wipe := range []time.Duration{2 * time.Second, 7 * time.Second} {
+		for _, wipe := range []time.Duration{2 * time.Second, 7 * time.Second, 3 * time.Second, 9 * time.Second} {
 			fcs = append(fcs, faultCase{Kind: kind, WipeAt: wipe, Restarted: true})
 			fcs = append(fcs, faultCase{Kind: kind, WipeAt: wipe, Restarted: true, Start: time.Second, Len: 5 * time.Second, FailCAS: true})
 		}
